@@ -325,6 +325,8 @@ func h20Shape(shape int) (parts []h20Part, reject bool) {
 		parts = []h20Part{{"file", "many.txt", content}}
 	case 13: // a label added between two results of one benchmark: two records, the second carries it
 		parts = []h20Part{{"file", "add.txt", []byte("key: k\nBenchmarkS 1 5 ns/op\nnote: x\nBenchmarkS 1 6 ns/op\n")}}
+	case 14: // a file without a name after a named one
+		parts = []h20Part{file('0', "a.txt"), file('1', ""), file('2', "z.txt")}
 	default:
 		panic("h20: no such shape")
 	}
@@ -533,6 +535,26 @@ func H20Upload() {
 		}
 		if e.st.MaxArgs >= 900 {
 			vndReach("h20:label-queue-flushed")
+		}
+	}
+	// the file-name label the server adds belongs to the file the record came from: absent
+	// for a file uploaded without a name, also when a named file precedes it
+	for pi, p := range parts {
+		if p.form != "file" {
+			continue
+		}
+		partID := id + "/" + string([]byte{'0' + byte(pi)})
+		for _, r := range newRecs {
+			if v, _ := e.st.LabelOf(id, r.ID, "upload-part"); v == partID {
+				fv, fn := e.st.LabelOf(id, r.ID, "upload-file")
+				if p.file == "" {
+					vndAssert(fn == 0, "record_of_an_unnamed_file_has_no_file_name_label")
+				} else if !strings.ContainsAny(p.file, `/\`) {
+					vndAssert(fn == 1 && fv == p.file, "record_carries_its_own_files_name")
+				} else {
+					vndAssert(fn == 1, "record_carries_its_own_files_name")
+				}
+			}
 		}
 	}
 	// consecutive results with identical labels are one record: per file 1 or 2 records
